@@ -1,4 +1,5 @@
 import collections.abc
+import unicodedata
 from collections.abc import Mapping, Set
 from contextlib import AbstractContextManager, contextmanager, nullcontext
 from dataclasses import dataclass, replace
@@ -359,7 +360,7 @@ class BuiltinModelLoaderGen(ModelLoaderGen):
 
     def _render_keyword_arg(self, name: str, value: str) -> str:
         # keys of TypedDict and names of pydantic fields can be keywords
-        if iskeyword(name) or name == "__debug__":
+        if iskeyword(name) or name == "__debug__" or name != unicodedata.normalize("NFKC", name):
             return f"**{{{name!r}: {value}}},"
         return f"{name}={value},"
 
